@@ -30,6 +30,27 @@ func findSegmentWithID(seqNo int, segments []*playlist.MediaSegment, id int) (*p
 	return segments[index], index, len(segments) - index
 }
 
+// segmentByteRangeStart returns the start of the byte range of the segment in position pos.
+// RFC 8216, 4.3.2.2: when the offset is not present, the sub-range begins at the next byte
+// following the sub-range of the previous media segment.
+func segmentByteRangeStart(segments []*playlist.MediaSegment, pos int) *uint64 {
+	seg := segments[pos]
+
+	if seg.ByteRangeLength == nil || seg.ByteRangeStart != nil {
+		return seg.ByteRangeStart
+	}
+
+	if pos > 0 && segments[pos-1].ByteRangeLength != nil && segments[pos-1].URI == seg.URI {
+		prevStart := segmentByteRangeStart(segments, pos-1)
+		if prevStart != nil {
+			v := *prevStart + *segments[pos-1].ByteRangeLength
+			return &v
+		}
+	}
+
+	return nil
+}
+
 func dateTimeOfPreloadHint(pl *playlist.Media) *time.Time {
 	if len(pl.Segments) == 0 {
 		return nil
@@ -342,7 +363,7 @@ func (d *clientStreamDownloader) fillSegmentQueue(
 	v := pl.MediaSequence + segPos
 	d.curSegmentID = &v
 
-	byts, err := d.downloadSegment(ctx, seg.URI, seg.ByteRangeStart, seg.ByteRangeLength)
+	byts, err := d.downloadSegment(ctx, seg.URI, segmentByteRangeStart(pl.Segments, segPos), seg.ByteRangeLength)
 	if err != nil {
 		return err
 	}
